@@ -348,6 +348,67 @@ fn oor_oracle(c: &OorCase, st: &mut Stats) -> Result<(), String> {
   }
 }
 
+
+#[derive(Clone, Debug, Serialize, Deserialize)]
+pub struct HugeCase {
+  pub t: u32,
+  pub secret: String,
+  pub seed: u64,
+  pub mode: u8,
+}
+
+fn huge_thresholds(tier: Tier) -> Vec<u32> {
+  let mut v = vec![255u32, 256, 257, 258, 511, 512, 513, 1024, 1025, 4097, 65535, 65536, 65537, 65538];
+  if tier == Tier::Thorough {
+    v.extend_from_slice(&[131_073, 1 << 20, (1 << 20) + 1]);
+  }
+  v
+}
+
+/// For thresholds far beyond what recovery can afford: the dealer must consume
+/// exactly t-1 draws, and a handful of dealt points must NOT lie on a polynomial
+/// of small degree (which they would if the degree were truncated).
+fn huge_oracle(c: &HugeCase, st: &mut Stats) -> Result<(), String> {
+  let t = c.t as usize;
+  let secret = c.secret.parse::<BigUint>().unwrap_or_default() % p();
+  let mut rng = ScriptedRng::new(&[], c.seed);
+  let mut replay = rng.clone();
+  let mut dealer = Sharks(c.t)
+    .dealer_rng(&le24(&secret), &mut rng)
+    .map_err(|e| format!("dealer refused: {e}"))?;
+  for _ in 0..t - 1 {
+    let _ = Fp::random(&mut replay);
+  }
+  st.evals(1);
+  if rng.words != replay.words {
+    return Err(format!(
+      "threshold {t}: the dealer consumed {} words of the random source, t-1 = {} coefficient draws consume {}",
+      rng.words,
+      t - 1,
+      replay.words
+    ));
+  }
+  let mut rng2 = ScriptedRng::new(&[], c.seed ^ 0xABCD);
+  let n = 8;
+  let pts: Vec<(BigUint, BigUint)> = (0..n)
+    .map(|_| {
+      let s = if c.mode == 0 { dealer.next().unwrap() } else { dealer.gen(&mut rng2) };
+      (fe_to_big(&s.x), fe_to_big(&s.y[0]))
+    })
+    .collect();
+  for d in 0..=5usize {
+    let co = interpolate_coeffs(&pts[..d + 1]);
+    if pts[d + 1..].iter().all(|(x, y)| eval_lo_to_hi(&co, x) == *y) {
+      return Err(format!(
+        "threshold {t}: {n} dealt points lie on a polynomial of degree <= {d}; the sharing polynomial does not have degree t-1"
+      ));
+    }
+  }
+  st.nontrivial(&(c.t, &c.secret, c.seed, c.mode));
+  st.class(&format!("t={}", c.t));
+  Ok(())
+}
+
 pub fn property() -> Property {
   Property {
     id: "C06",
@@ -361,6 +422,15 @@ pub fn property() -> Property {
       prop_sub("model_agreement", 3000, 60000, |t| strat_with(t.pick(64, 64), false), oracle),
       prop_sub("model_agreement_large_t", 16, 400, |_| strat_with(64, true), oracle),
       prop_sub("out_of_range_secret", 2000, 40000, oor_strat, oor_oracle),
+      enum_sub(
+        "degree_at_huge_thresholds",
+        |t| 2 * huge_thresholds(t).len() as u64,
+        |t, i| {
+          let v = huge_thresholds(t);
+          HugeCase { t: v[(i / 2) as usize], secret: "123456789".into(), seed: 77 + i, mode: (i % 2) as u8 }
+        },
+        huge_oracle,
+      ),
     ],
   }
 }
